@@ -2,9 +2,15 @@
 
 package rig
 
-import "go.flow.arcalot.io/pluginsdk/atp"
+import (
+	"go.flow.arcalot.io/pluginsdk/atp"
+	"go.flow.arcalot.io/pluginsdk/schema"
+)
 
 // OverlayBuild reports whether this binary was built with the yield-point overlay.
 const OverlayBuild = true
 
-func init() { atp.VerifYield = Y.Hook }
+func init() {
+	atp.VerifYield = Y.Hook
+	schema.VerifYield = Y.Hook
+}
